@@ -352,7 +352,7 @@ def run_config(cfg):
     if so[0] == 'unsupported':
         res.status = 'inconclusive'; res.notes.append('symbolic engine: ' + so[1]); return res
     if so[0] != ro[0]:
-        res.status = 'error'; res.trace = 'symbolic outcome %r differs from real torch outcome %r' % (so[:3], ro[:3]); return res
+        res.status = 'error'; res.trace = 'symbolic outcome %r differs from real torch outcome %r' % (core.brief(so), core.brief(ro)); return res
     if (so[0] == 'ok') != (b_sym[0] == 'ok') or (b_real[0] != ro[0]):
         res.status = 'violation'
         res.violations.append(dict(what='after the history %s the call %s, alone in a fresh process %s' % (cfg['seq'][:-1], so[:2] if so[0] != 'ok' else 'returns', b_sym[:2] if b_sym[0] != 'ok' else 'returns'),
@@ -448,7 +448,7 @@ def run_config(cfg):
         if no[0] == 'unsupported':
             res.status = 'inconclusive'; res.notes.append('symbolic engine (no_grad): ' + no[1])
         elif no[0] != rno[0]:
-            res.status = 'error'; res.trace = 'no_grad: symbolic outcome %r differs from real %r' % (no[:3], rno[:3])
+            res.status = 'error'; res.trace = 'no_grad: symbolic outcome %r differs from real %r' % (core.brief(no), core.brief(rno))
         elif no[0] == 'raise':
             res.status = 'violation'
             res.violations.append(dict(what='call raises %s under torch.no_grad()' % no[1], facts=dict(facts, autograd=True), replay=dict(kind='autograd'), reproduced=True))
